@@ -14,6 +14,8 @@ package contracts
 //@   results buf
 //@   requires 0 <= ln && ln <= cp
 //@   ensures fresh(buf) && buf#arr != 0 && len(buf) == ln && cap(buf) == cp && buf#base == 0
+//@   note ghost maps are zero at a block that did not exist before (definitional: ghost state is only ever written at allocated blocks)
+//@   ensures pool[buf#arr] == 0 && blknode[buf#arr] == 0 && cacheown[buf#arr] == nil && peekown[buf#arr] == nil
 //@
 //@ extern bytes.IndexByte
 //@   params b c
@@ -168,3 +170,21 @@ package contracts
 //@   ensures result != nil
 //@ iface context.Context.Done
 //@   ensures true
+//@
+//@ extern mcache.Malloc
+//@   params size caps
+//@   results buf
+//@   note github.com/bytedance/gopkg/lang/mcache (capacity is variadic): a block from a size-classed sync.Pool; assumed: the block is not handed
+//@     out twice before it is returned (ghost pool state 1 = handed out, 2 = returned), its capacity is the size class (>= the request, <= 8 MB here)
+//@   requires 0 <= size && len(caps) == 1 && size <= caps[0] && caps[0] <= 8388608
+//@   ensures fresh(buf) && buf#arr != 0 && len(buf) == size && cap(buf) >= caps[0] && cap(buf) > 0 && cap(buf) <= 8388608 && buf#base == 0
+//@   ensures pool[buf#arr] == 1 && blknode[buf#arr] == 0 && cacheown[buf#arr] == nil && peekown[buf#arr] == nil
+//@   ensures forall a int :: a != buf#arr ==> pool[a] == old(pool[a])
+//@   modifies pool
+//@ extern mcache.Free
+//@   params buf
+//@   note returning a block: it must be a live, whole block (base 0) of the pool that was not returned yet
+//@   requires pool[buf#arr] == 1 && buf#base == 0 && cap(buf) > 0
+//@   ensures pool[buf#arr] == 2
+//@   ensures forall a int :: a != buf#arr ==> pool[a] == old(pool[a])
+//@   modifies pool
